@@ -186,6 +186,21 @@ def call_terms(ctx, callee_path, crates=LIB, _depth=0):
     return uniq
 
 
+def owners(ctx, path, crates=LIB, _depth=0):
+    """the functions a piece of code belongs to for who-may rules: a transparent helper (private, non-recursive, named by no
+    rule) belongs to the functions that call it; every other function to itself. Returns a sorted list of fn paths."""
+    b = ctx.P.body(path)
+    if b is None or "body" not in b or _depth > 4:
+        return [path]
+    if norm_of(ctx, b).transparent_fn(path) is None:
+        return [path]
+    out = set()
+    for cb, _n in callers_of(ctx.P, path, crates):
+        if cb["path"] != path:
+            out.update(owners(ctx, cb["path"], crates, _depth + 1))
+    return sorted(out) or [path]
+
+
 def norm_of(ctx, b):
     cache = ctx.__dict__.setdefault("_norm_cache", {})
     if b["path"] not in cache:
